@@ -1,120 +1,165 @@
 """MS — memo-slot / polarity agreement.
 
-The fold memo stored on a node is a pair (value for the complemented pointer, value for the
-regular pointer).  On every path that writes Some(res) into slot k of a set_scratch argument, and
-on every path on which a value read from slot k of scratch() flows to the return, the pointer's
-complement bit is known and equals (k == 0).
+The fold memo stored on a node is a pair (value for the complemented pointer, value for the regular pointer).
+For each polarity of the pointer (its variant: Reg / Compl, BDD / ComplBDD) the traversal is evaluated with every
+test on that variant folded (canon.paths_under / assume_variant), and then:
+
+  read    a value taken from the memo and returned comes from slot 0 for a complemented pointer, slot 1 for a regular one
+  write   the pair handed to set_scratch has the freshly computed result in that same slot and passes the other slot
+          through
+
+Where the memo is read (a match on the pair, `unwrap_or_default()` and a tuple swap, ...) and where it is written
+(a closure, a nested fn, the traversal itself) is irrelevant: every body under the traversal is examined.
 """
-from . import mir
+from . import mir, canon
 from .base import inst, OK, VIOLATION, UNDECIDED, strip
 from .facts import CheckerError
 from .mir import show
 
-TRAVERSALS = [
-    ("bdd_fold_h", "repr::bdd::BddPtr", None),
-    ("bottomup_pass_h", None, "<repr::bdd::BddPtr as repr::ddnnf::DDNNFPtr>::fold"),
-    ("bottomup_pass_h", None, "<repr::sdd::SddPtr as repr::ddnnf::DDNNFPtr>::fold"),
+ROOTS = [
+    ("repr::bdd::BddPtr::bdd_fold_h", (("Reg", "Compl"),)),
+    ("<repr::bdd::BddPtr as repr::ddnnf::DDNNFPtr>::fold", (("Reg", "Compl"),)),
+    ("<repr::sdd::SddPtr as repr::ddnnf::DDNNFPtr>::fold", (("Reg", "Compl"), ("BDD", "ComplBDD"))),
 ]
 
 
-def slot_of(t):
-    """((scratch(p) as Some).0.K as Some).0 -> (p, K)"""
+def _peel(t):
     t = strip(t)
-    try:
-        if t[0] == "field" and t[2] == "0" and t[1][0] == "as" and t[1][2] == "Some":
-            x = t[1][1]
-            if x[0] == "field" and x[2] in ("0", "1"):
-                y = x[1]
-                if y[0] == "field" and y[2] == "0" and y[1][0] == "as" and y[1][2] == "Some" and mir.is_call(y[1][1], "scratch"):
-                    return strip(y[1][1][2][0]), x[2]
-    except (IndexError, TypeError):
-        pass
+    while True:
+        if isinstance(t, tuple) and t and t[0] in ("deref", "ref"):
+            t = strip(t[1])
+        elif mir.is_call(t, "clone") or mir.is_call(t, "copied") or mir.is_call(t, "cloned"):
+            t = strip(t[2][0])
+        else:
+            return t
+
+
+def memo_slot(t):
+    """'0' / '1' when t is the payload of one slot of the scratch pair, else None"""
+    t = _peel(t)
+    if not canon.is_payload(t):
+        return None
+    x = _peel(t[1][1])
+    if isinstance(x, tuple) and x and x[0] == "field" and x[2] in ("0", "1") and "scratch(" in show(x[1]):
+        return x[2]
     return None
 
 
-def nu_from_facts(te, bb, ptr):
-    for c, val, _, d in reversed(te.facts_at(bb)):
-        c = strip(c)
-        if mir.is_call(c, "is_neg") and strip(c[2][0]) == ptr:
-            return val != "0"
-        if c[0] == "un" and c[1] == "Not" and mir.is_call(strip(c[2]), "is_neg") and strip(strip(c[2])[2][0]) == ptr:
-            return val == "0"
-    return None
+def memo_slots(prog, te, t, depth=0):
+    """slots of the scratch pair whose payload the term t may evaluate to (through open choices and Option
+    eliminations such as `own.unwrap_or_else(|| compute())`)"""
+    t = _peel(t)
+    out = set()
+    if not isinstance(t, tuple) or not t or depth > 6:
+        return out
+    k = memo_slot(t)
+    if k is not None:
+        return {k}
+    if t[0] in ("gamma", "phi"):
+        for _, v in t[2]:
+            out |= memo_slots(prog, te, v, depth + 1)
+        return out
+    oe = canon.opt_elim(prog, te, t)
+    if oe is not None:
+        o, nv, sv = oe
+        out |= memo_slots(prog, te, sv, depth + 1)
+        out |= memo_slots(prog, te, nv, depth + 1)
+    return out
+
+
+def _upvars(prog, g):
+    """captured variables of closure g as {name: term in the enclosing function}"""
+    if "{closure" not in g.npath:
+        return {}
+    parent = g.npath.rsplit("::{closure", 1)[0]
+    for f in prog.lib_fns:
+        if f.npath != parent:
+            continue
+        roots = [a for cs in f.terms.calls for a in cs.args] + ([f.terms.ret] if f.terms.ret is not None else []) + \
+                [t for _, t, _ in f.terms.aggs]
+        for r in roots:
+            for x in mir.subterms(r):
+                if x[0] == "agg" and x[1] == "closure" and x[2] == g.npath and len(x) > 5:
+                    ups = dict(zip(x[5], x[4]))
+                    outer = _upvars(prog, f)
+                    return {k: canon.subst(v, None, outer) for k, v in ups.items()} if outer else ups
+    return {}
+
+
+def _under(prog, root):
+    return [f for f in prog.lib_fns if f.npath == root or f.npath.startswith(root + "::")]
 
 
 def run(prog):
     out = []
     n = 0
-    for name, self_adt, parent in TRAVERSALS:
-        if parent:
-            fns = [f for f in prog.lib_fns if f.parent == parent and f.kind != "Closure"]   # the nested helper, whatever its name
-        else:
-            fns = prog.find(name=name, self_adt=self_adt, unit="rsdd-lib")
-        if len(fns) != 1:
-            raise CheckerError("MS: traversal %s/%s not found" % (name, parent or self_adt))
-        fn = fns[0]
-        te = fn.terms
-        # ---- reads
-        reads = []
-
-        def walk(t, pred_bb, nu):
-            t0 = t
-            if isinstance(t, tuple) and t and t[0] == "phi":
-                for p, v in t[2]:
-                    walk(v, p, nu)
-                return
-            if isinstance(t, tuple) and t and t[0] == "gamma":
-                c = strip(t[1])
-                for lab, v in t[2]:
-                    nu2 = nu
-                    if mir.is_call(c, "is_neg"):
-                        nu2 = (lab != "0")
-                    walk(v, pred_bb, nu2)
-                return
-            s = slot_of(t)
-            if s:
-                reads.append((s[0], s[1], pred_bb, nu))
-        for b, t in te.ret_by_block.items():
-            walk(t, b, None)
-        for i, (ptr, k, pb, nu) in enumerate(reads):
-            if nu is None and pb is not None and pb >= 0:
-                nu = nu_from_facts(te, pb, ptr)
-            key = "%s:read#%d[slot %s]" % (fn.npath, i, k)
-            n += 1
-            if nu is None:
-                out.append(inst("MS", key, UNDECIDED, fn, None, "polarity of the pointer is not known where slot %s is returned" % k))
+    for root, pairs in ROOTS:
+        fam = _under(prog, root)
+        if not fam:
+            raise CheckerError("MS: traversal %s not found" % root)
+        nr = nw = 0
+        for g in fam:
+            te = g.terms
+            ups = _upvars(prog, g)
+            sub = (lambda t: canon.subst(t, None, ups)) if ups else (lambda t: t)
+            ptrs = {}
+            for cs in te.calls:
+                if cs.callee.name in ("scratch", "set_scratch") and cs.args:
+                    ptrs[repr(_peel(sub(cs.args[0])))] = _peel(sub(cs.args[0]))
+            if len(ptrs) != 1:
                 continue
-            ok = (k == "0") == nu
-            out.append(inst("MS", key, OK if ok else VIOLATION, fn, None,
-                            "slot %s returned for a %s pointer" % (k, "complemented" if nu else "regular") if ok else
-                            "memo slot %s (the value computed for the %s pointer) is returned for a %s pointer: a node reached "
-                            "in both polarities yields its complement's value"
-                            % (k, "complemented" if k == "0" else "regular", "complemented" if nu else "regular")))
-        # ---- writes (the fold-and-cache closure, or the function itself)
-        bodies = [fn] + list(prog.children(fn))
-        for g in bodies:
-            tg = g.terms
-            for cs in tg.calls:
+            P = list(ptrs.values())[0]
+            # ---- reads
+            if P[0] == "param" and te.ret is not None and not ups:
+                for vreg, vcompl in pairs:
+                    for nu, v in ((0, vreg), (1, vcompl)):
+                        rs = canon.paths_under(g, P, v)
+                        if rs is None:
+                            out.append(inst("MS", "%s:read[%s]" % (g.npath, v), UNDECIDED, g, None, "paths not enumerable"))
+                            continue
+                        ks = sorted({k for r in rs for k in memo_slots(prog, te, r)})
+                        if not ks:
+                            continue
+                        nr += 1
+                        n += 1
+                        bad = [k for k in ks if (k == "0") != bool(nu)]
+                        out.append(inst("MS", "%s:read[%s]" % (g.npath, v), VIOLATION if bad else OK, g, None,
+                                        ("memo slot %s (the value computed for the %s pointer) is returned for a %s pointer: a node "
+                                         "reached in both polarities yields its complement's value"
+                                         % (bad[0], "complemented" if bad[0] == "0" else "regular", "complemented" if nu else "regular"))
+                                        if bad else "slot %s returned for a %s pointer" % (ks[0], "complemented" if nu else "regular")))
+            # ---- writes
+            for cs in te.calls:
                 if cs.callee.name != "set_scratch" or len(cs.args) != 2:
                     continue
-                v = strip(cs.args[1])
-                if not (v[0] == "agg" and v[1] == "tuple" and len(v[4]) == 2):
-                    continue
-                ptr = strip(cs.args[0])
-                nu = nu_from_facts(tg, cs.bb, ptr)
-                fresh = [i for i, o in enumerate(v[4]) if strip(o)[0] == "agg" and strip(o)[3] == "Some"]
-                key = "%s:write[%s]" % (g.npath, "compl" if nu else ("reg" if nu is not None else "?"))
-                n += 1
-                if nu is None or len(fresh) != 1:
-                    out.append(inst("MS", key, UNDECIDED, g, cs.line, "write site not in the (Some(res), other) form or polarity unknown"))
-                    continue
-                ok = (fresh[0] == 0) == nu
-                other = strip(v[4][1 - fresh[0]])
-                out.append(inst("MS", key, OK if ok else VIOLATION, g, cs.line,
-                                "result stored in slot %d for a %s pointer, other slot passed through (%s)"
-                                % (fresh[0], "complemented" if nu else "regular", show(other)[:40]) if ok else
-                                "result of the %s pass is stored in slot %d (the %s slot)"
-                                % ("complemented" if nu else "regular", fresh[0], "complemented" if fresh[0] == 0 else "regular")))
-    if n < 8:
-        raise CheckerError("MS: expected >= 8 memo slot sites, found %d" % n)
+                for vreg, vcompl in pairs[:1]:
+                    for nu, v in ((0, vreg), (1, vcompl)):
+                        # is this site on a path for this polarity?
+                        feasible = True
+                        for c, val, _, _ in te.facts_at(cs.bb):
+                            b = canon._as_bool(canon.assume_variant(te, sub(c), P, v))
+                            if b is not None and b != (val != "0"):
+                                feasible = False
+                        if not feasible:
+                            continue
+                        V = strip(canon.assume_variant(te, sub(cs.args[1]), P, v))
+                        key = "%s:write[%s]" % (g.npath, "compl" if nu else "reg")
+                        if not (isinstance(V, tuple) and V and V[0] == "agg" and V[1] == "tuple" and len(V[4]) == 2):
+                            continue     # not a memo pair (another traversal's scratch type)
+                        nw += 1
+                        n += 1
+                        fresh = [i for i, o in enumerate(V[4]) if strip(o)[0] == "agg" and strip(o)[3] == "Some" and "scratch(" not in show(o)]
+                        if len(fresh) != 1:
+                            out.append(inst("MS", key, UNDECIDED, g, cs.line, "write site not in the (Some(res), other) form: %s" % show(V)[:60]))
+                            continue
+                        ok = (fresh[0] == 0) == bool(nu)
+                        other = strip(V[4][1 - fresh[0]])
+                        out.append(inst("MS", key, OK if ok else VIOLATION, g, cs.line,
+                                        "result stored in slot %d for a %s pointer, other slot passed through (%s)"
+                                        % (fresh[0], "complemented" if nu else "regular", show(other)[:40]) if ok else
+                                        "result of the %s pass is stored in slot %d (the %s slot)"
+                                        % ("complemented" if nu else "regular", fresh[0], "complemented" if fresh[0] == 0 else "regular")))
+        if nr < 2 or nw < 2:
+            out.append(inst("MS", "%s:sites" % root, UNDECIDED, fam[0], None,
+                            "expected memo reads and writes for both polarities, found %d read / %d write instances" % (nr, nw)))
     return out
